@@ -4,3 +4,5 @@ set -e
 OUT=${1:-/tmp/findings_build}; mkdir -p $OUT
 g++ -std=c++17 -g -fsanitize=address -I/repo/src -I/repo/include -I/repo/include/teakra/impl /verif/findings/c18_fetch_oob.cpp /repo/src/memory_interface.cpp /repo/src/mmio.cpp /repo/src/timer.cpp /repo/src/btdmp.cpp /repo/src/apbp.cpp /repo/src/dma.cpp /repo/src/ahbm.cpp -o $OUT/c18_fetch_oob 2>&1 | tail -5
 echo built $OUT/c18_fetch_oob
+g++ -std=c++17 -g -fsanitize=address -I/repo/src -I/repo/include -I/repo/include/teakra/impl /verif/findings/c18_dma_channel_oob.cpp /repo/src/memory_interface.cpp /repo/src/mmio.cpp /repo/src/timer.cpp /repo/src/btdmp.cpp /repo/src/apbp.cpp /repo/src/dma.cpp /repo/src/ahbm.cpp -o $OUT/c18_dma_channel_oob 2>&1 | tail -5
+echo built $OUT/c18_dma_channel_oob
